@@ -4,6 +4,7 @@ import (
 	"fmt"
 	"math/rand/v2"
 	"runtime"
+	"sync"
 
 	"github.com/privacybydesign/gabi"
 	"github.com/privacybydesign/gabi/big"
@@ -121,6 +122,7 @@ func runC13(r *mon.Run) {
 	r.FloorAccept("four-squares", 500)
 	r.FloorAccept("three-squares", 500)
 	r.FloorAccept("composite", 50)
+	r.FloorFam("constructor", 100)
 }
 
 // mkStatement derives (m, statement) with sign*(f*m - bound) = diff.
@@ -137,11 +139,28 @@ func mkStatement(jr *rand.Rand, c c13case, table *rangeproof.SquaresTable) (*big
 		bound = add(fm, c.diff) // bound - f*m = diff
 	}
 	st := &rangeproof.Statement{Sign: c.sign, Factor: c.f, Bound: bound}
+	if c.f == 1 && jr.IntN(2) == 0 {
+		// through the constructor, from a scratch variable that the caller goes on using (a loop walking a window of
+		// bounds): the statement must keep the value it was requested with
+		typ := rangeproof.GreaterOrEqual
+		if c.sign != 1 {
+			typ = rangeproof.LesserOrEqual
+		}
+		scratch := cp(bound)
+		if ns, err := rangeproof.NewStatement(typ, scratch); err == nil && ns != nil {
+			scratch.Add(scratch, bi(int64(1+jr.IntN(1000)))).Lsh(scratch, uint(jr.IntN(3)))
+			st = ns
+			stmtIntended.Store(st, cp(bound))
+		}
+	}
 	if c.three {
 		st.Splitter = table
 	}
 	return m, st
 }
+
+// stmtIntended remembers, for statements made through NewStatement, the bound they were requested with.
+var stmtIntended sync.Map
 
 func c13Judge(r *mon.Run, family, desc string, key *world.Key, cred *world.Cred, stm map[int][]*rangeproof.Statement, sample bool) {
 	pk := key.PK
@@ -152,6 +171,17 @@ func c13Judge(r *mon.Run, family, desc string, key *world.Key, cred *world.Cred,
 			m[k] = v
 		}
 		r.Violation(sig, msg+" ("+family+": "+desc+")", m)
+	}
+	for _, l := range stm {
+		for _, st := range l {
+			if want, ok := stmtIntended.LoadAndDelete(st); ok {
+				r.Eval("constructor", "accept")
+				if st.Bound.Cmp(want.(*big.Int)) != 0 {
+					fail("C13/statement-follows-callers-variable", fmt.Sprintf("a statement made by NewStatement changed from bound %s to %s when the caller re-used its own variable", shortInt(want.(*big.Int)), shortInt(st.Bound)), nil)
+					st.Bound = cp(want.(*big.Int))
+				}
+			}
+		}
 	}
 	ctx, nonce := bi(987654321), bi(1234567)
 	// requested statements are copied: the library must not be affected by (or affect) the caller's values
